@@ -2,6 +2,7 @@ package main
 
 import (
 	"bufio"
+	"fmt"
 	"go/types"
 	"os"
 	"path/filepath"
@@ -22,10 +23,19 @@ import (
 // leaves the caller's tables unchanged, and hiding an effect or dropping a check inside a new helper
 // does not take it out of view.
 
+type knownFunc struct {
+	flags string // configurations the function exists in: L linux/amd64, 3 linux/386, W windows/amd64
+	sig   string // parameter and result types
+}
+
 var (
-	knownFuncs     map[string]bool
+	knownFuncs     map[string]knownFunc
 	knownFuncsDone bool
 	inlinable      = map[*ssa.Function]int{} // 1 yes, 2 no
+	// a function of funcs.known that is gone and an unreviewed function of the same package,
+	// receiver and signature: the reviewed function under a new name
+	renamedFrom = map[*ssa.Function]string{} // new function -> old identity
+	renamedTo   = map[string]*ssa.Function{} // old identity -> new function
 )
 
 func loadKnownFuncs() {
@@ -38,14 +48,137 @@ func loadKnownFuncs() {
 		return
 	}
 	defer fh.Close()
-	knownFuncs = map[string]bool{}
+	knownFuncs = map[string]knownFunc{}
 	sc := bufio.NewScanner(fh)
 	sc.Buffer(make([]byte, 1<<20), 1<<20)
 	for sc.Scan() {
-		if s := strings.TrimSpace(sc.Text()); s != "" && !strings.HasPrefix(s, "#") {
-			knownFuncs[s] = true
+		s := sc.Text()
+		if strings.TrimSpace(s) == "" || strings.HasPrefix(s, "#") {
+			continue
+		}
+		parts := strings.SplitN(s, "\t", 3)
+		k := knownFunc{flags: "L3W"}
+		if len(parts) > 1 {
+			k.flags = parts[1]
+		}
+		if len(parts) > 2 {
+			k.sig = parts[2]
+		}
+		knownFuncs[parts[0]] = k
+	}
+}
+
+func isKnownFunc(id string) bool {
+	_, ok := knownFuncs[id]
+	return ok
+}
+
+func configFlag() string {
+	switch {
+	case os.Getenv("VERIF_GOOS") == "windows":
+		return "W"
+	case os.Getenv("VERIF_GOARCH") == "386":
+		return "3"
+	}
+	return "L"
+}
+
+// sigString: parameter and result types without names.
+func sigString(fn *ssa.Function) string {
+	sig := fn.Signature
+	var ps, rs []string
+	for i := 0; i < sig.Params().Len(); i++ {
+		ps = append(ps, sig.Params().At(i).Type().String())
+	}
+	for i := 0; i < sig.Results().Len(); i++ {
+		rs = append(rs, sig.Results().At(i).Type().String())
+	}
+	v := ""
+	if sig.Variadic() {
+		v = "..."
+	}
+	return "(" + strings.Join(ps, ",") + v + ")(" + strings.Join(rs, ",") + ")"
+}
+
+// ownerKey: identity without the function's own name: "(*pkg.T)." or "pkg.".
+func ownerKey(id string) string {
+	if strings.HasPrefix(id, "(") {
+		if i := strings.Index(id, ")."); i >= 0 {
+			return id[:i+2]
 		}
 	}
+	if i := strings.LastIndex(id, "."); i >= 0 {
+		return id[:i+1]
+	}
+	return id
+}
+
+// detectRenames pairs every reviewed function that no longer exists with the one unreviewed
+// function of the same package, receiver and signature, if there is exactly one on each side.
+func detectRenames(p *Program) {
+	loadKnownFuncs()
+	if knownFuncs == nil {
+		return
+	}
+	present := map[string]*ssa.Function{}
+	for _, pr := range []*Program{p, p.V2} {
+		if pr == nil || pr.SSA == nil {
+			continue
+		}
+		for fn := range ssautil.AllFunctions(pr.SSA) {
+			if fn.Synthetic != "" || fn.Pkg == nil || fn.Parent() != nil || !strings.HasPrefix(fn.Pkg.Pkg.Path(), btcdPrefix) {
+				continue
+			}
+			if fn.TypeParams().Len() > 0 || len(fn.TypeArgs()) > 0 {
+				continue
+			}
+			present[funcID(fn)] = fn
+		}
+	}
+	cfg := configFlag()
+	olds := map[string][]string{}
+	for id, k := range knownFuncs {
+		if _, ok := present[id]; !ok && strings.Contains(k.flags, cfg) && k.sig != "" {
+			key := ownerKey(id) + "|" + k.sig
+			olds[key] = append(olds[key], id)
+		}
+	}
+	news := map[string][]*ssa.Function{}
+	for id, fn := range present {
+		if !isKnownFunc(id) {
+			key := ownerKey(id) + "|" + sigString(fn)
+			news[key] = append(news[key], fn)
+		}
+	}
+	var notes []string
+	for key, os_ := range olds {
+		ns := news[key]
+		if len(os_) == 1 && len(ns) == 1 {
+			renamedFrom[ns[0]] = os_[0]
+			renamedTo[os_[0]] = ns[0]
+			notes = append(notes, "note: "+ns[0].String()+" is taken as the reviewed "+os_[0]+" under a new name (same package, receiver and signature; the reviewed one is gone)")
+		}
+	}
+	sort.Strings(notes)
+	for _, n := range notes {
+		fmt.Println(n)
+	}
+}
+
+// tableNameToID: "pkg.(*T).M" -> "(*pkg.T).M" (the identity format of funcs.known).
+func tableNameToID(name string) string {
+	if i := strings.Index(name, ".("); i >= 0 {
+		rest := name[i+2:]
+		if j := strings.Index(rest, ")."); j >= 0 {
+			star := ""
+			t := rest[:j]
+			if strings.HasPrefix(t, "*") {
+				star, t = "*", t[1:]
+			}
+			return "(" + star + name[:i] + "." + t + ")." + rest[j+2:]
+		}
+	}
+	return name
 }
 
 func funcID(fn *ssa.Function) string {
@@ -71,7 +204,7 @@ func listFuncs(p *Program) []string {
 			if !strings.HasPrefix(fn.Pkg.Pkg.Path(), btcdPrefix) {
 				continue
 			}
-			set[funcID(fn)] = true
+			set[funcID(fn)+"\t"+sigString(fn)] = true
 		}
 	}
 	var out []string
@@ -92,7 +225,7 @@ func (p *Program) isNewFunc(fn *ssa.Function) bool {
 	if v := inlinable[fn]; v != 0 {
 		return v == 1
 	}
-	ok := strings.HasPrefix(fn.Pkg.Pkg.Path(), btcdPrefix) && !knownFuncs[funcID(fn)] &&
+	ok := strings.HasPrefix(fn.Pkg.Pkg.Path(), btcdPrefix) && !isKnownFunc(funcID(fn)) && renamedFrom[fn] == "" &&
 		fn.TypeParams().Len() == 0 && len(fn.TypeArgs()) == 0
 	if ok {
 		for _, b := range fn.Blocks {
@@ -343,7 +476,7 @@ func (p *Program) isUnreviewed(fn *ssa.Function) bool {
 	if knownFuncs == nil || fn == nil || fn.Synthetic != "" || fn.Parent() != nil || fn.Pkg == nil {
 		return false
 	}
-	return strings.HasPrefix(fn.Pkg.Pkg.Path(), btcdPrefix) && !knownFuncs[funcID(fn)]
+	return strings.HasPrefix(fn.Pkg.Pkg.Path(), btcdPrefix) && !isKnownFunc(funcID(fn)) && renamedFrom[fn] == ""
 }
 
 // attribute: the reviewed functions an access inside fn is charged to. A reviewed function answers
@@ -399,4 +532,116 @@ func (p *Program) attribute(fn *ssa.Function, depth int) []*ssa.Function {
 		return []*ssa.Function{fn}
 	}
 	return fs
+}
+
+// ---- renamed struct fields --------------------------------------------------
+//
+// rules/fields.known lists every named struct type of the btcd modules with its fields (name and
+// type, in order). A struct that still has the same field types in the same order but other names
+// at some positions has had those fields renamed: terms, field anchors and ownership tables keep
+// using the reviewed name (printed as a note).
+
+var renamedField = map[*types.Var]string{} // field object -> the name it was reviewed under
+
+func fieldDisplayName(v *types.Var) string {
+	if old, ok := renamedField[v]; ok {
+		return old
+	}
+	return v.Name()
+}
+
+// listFields prints "pkg.T <TAB> name:type|name:type…" for every named struct type of btcd.
+func listFields(p *Program) []string {
+	set := map[string]bool{}
+	eachStruct(p, func(id string, st *types.Struct) {
+		var fs []string
+		for i := 0; i < st.NumFields(); i++ {
+			fs = append(fs, st.Field(i).Name()+":"+st.Field(i).Type().String())
+		}
+		set[id+"\t"+strings.Join(fs, "|")] = true
+	})
+	var out []string
+	for s := range set {
+		out = append(out, s)
+	}
+	sort.Strings(out)
+	return out
+}
+
+func eachStruct(p *Program, f func(id string, st *types.Struct)) {
+	for _, pr := range []*Program{p, p.V2} {
+		if pr == nil {
+			continue
+		}
+		for path, pk := range pr.All {
+			if !strings.HasPrefix(path, btcdPrefix) || pk.Types == nil {
+				continue
+			}
+			sc := pk.Types.Scope()
+			for _, n := range sc.Names() {
+				tn, ok := sc.Lookup(n).(*types.TypeName)
+				if !ok || tn.IsAlias() {
+					continue
+				}
+				if st, ok := tn.Type().Underlying().(*types.Struct); ok {
+					f(path+"."+n, st)
+				}
+			}
+		}
+	}
+}
+
+func detectFieldRenames(p *Program) {
+	fh, err := os.Open(filepath.Join(verifDir(), "rules", "fields.known"))
+	if err != nil {
+		return
+	}
+	defer fh.Close()
+	known := map[string][]string{}
+	sc := bufio.NewScanner(fh)
+	sc.Buffer(make([]byte, 1<<20), 1<<20)
+	for sc.Scan() {
+		parts := strings.SplitN(sc.Text(), "\t", 2)
+		if len(parts) == 2 && parts[1] != "" {
+			known[parts[0]] = strings.Split(parts[1], "|")
+		}
+	}
+	var notes []string
+	eachStruct(p, func(id string, st *types.Struct) {
+		old, ok := known[id]
+		if !ok || len(old) != st.NumFields() {
+			return
+		}
+		type pair struct {
+			v   *types.Var
+			old string
+		}
+		var ps []pair
+		names := map[string]bool{}
+		for i := 0; i < st.NumFields(); i++ {
+			names[st.Field(i).Name()] = true
+		}
+		for i, o := range old {
+			k := strings.Index(o, ":")
+			if k < 0 || o[k+1:] != st.Field(i).Type().String() {
+				return // a type changed: not a pure rename
+			}
+			if o[:k] != st.Field(i).Name() {
+				if names[o[:k]] {
+					return // the old name still exists elsewhere: fields were reordered, not renamed
+				}
+				ps = append(ps, pair{st.Field(i), o[:k]})
+			}
+		}
+		for _, pr := range ps {
+			if _, dup := renamedField[pr.v]; !dup {
+				renamedField[pr.v] = pr.old
+				notes = append(notes, "note: field "+id+"."+pr.v.Name()+" is taken as the reviewed field "+pr.old+" under a new name (same struct, position and type)")
+			}
+		}
+	})
+	sort.Strings(notes)
+	for _, n := range notes {
+		fmt.Println(n)
+	}
 }
